@@ -49,6 +49,13 @@ def make_fn(variant):
             bus[b, PD] = ctx.var(f"pd{b}", -50., 50.)
             bus[b, VM] = 1.0
             bus[b, BUS_TYPE] = [REF, PV, PV, PQ][b]
+        pd_eff = [bus[b, PD] for b in range(nb)]
+        if variant == "zip":       # voltage dependent loads at the participants' buses, solved voltage magnitudes different from 1
+            from pandapower.pypower.idx_bus import CID_P, CZD_P
+            for b in range(3):
+                vm_b, ci, cz = ctx.var(f"vm{b}", 0.9, 1.1), ctx.var(f"ci{b}", 0., 20.), ctx.var(f"cz{b}", 0., 20.)
+                bus[b, VM], bus[b, CID_P], bus[b, CZD_P] = vm_b, ci, cz
+                pd_eff[b] = bus[b, PD] + ci * (vm_b - 1) + cz * (vm_b * vm_b - 1)      # demand at the solved voltage (documented ZIP model)
         ppc = {"bus": bus, "gen": gen, "branch": branch}
         gen_mask = np.array([True, True, True, True])
         with patched(bg, _subnetworks=lambda ppc_: [np.arange(nb)]):      # one island (scipy.csgraph on the concrete branch list)
@@ -69,7 +76,7 @@ def make_fn(variant):
             for k in range(ng):
                 if gbus[k] == b:
                     pg = pg + pset[k]
-            Pinj.append((pg - bus[b, PD]) / base)
+            Pinj.append((pg - pd_eff[b]) / base)
         mk = (lambda re, im: SComplex(re, im)) if ctx.symbolic else (lambda re, im: complex(re, im))
         Sbus = ctx.array([mk(p, 0.0) for p in Pinj])
         if ctx.mode == "sym":
@@ -212,6 +219,8 @@ def instances(tier):
     out = [Inst("shared_bus", make_fn("general"), nvars=40, samples=3, timeout_ms=60000, raises=(ValueError, NotImplementedError), meta=dict(variant="general")),
            Inst("ext_grid_weight_zero_shares_bus_with_participant", make_fn("ref_weight_zero"), nvars=40, samples=3, timeout_ms=60000,
                 raises=(ValueError, NotImplementedError), meta=dict(variant="ref_weight_zero"))]
+    out.append(Inst("voltage_dependent_loads_at_participant_buses", make_fn("zip"), nvars=48, samples=3, timeout_ms=60000, raises=(ValueError, NotImplementedError),
+                    meta=dict(variant="ZIP loads at the buses of participating machines, |V| != 1")))
     out.append(Inst("all_buses_are_reference_buses", make_no_bypass(), nvars=8, samples=2, raises=(ValueError, NotImplementedError), meta=dict(variant="bypass of the iteration")))
     out.append(Inst("xward_result_extraction", make_xward_results(), nvars=40, samples=3, timeout_ms=60000, raises=(ValueError, NotImplementedError),
                     meta=dict(variant="participating xwards at two buses, out-of-service xward, scaled load, sgen, storage, ward, out-of-service load")))
